@@ -1,5 +1,6 @@
 """C11 - classifier outputs are probabilities and consistent decisions."""
 import ast
+from ..astutil import inline_temporaries as _it
 
 from ..astutil import FuncTree, dominates
 from ..common import norm_stmt, site_id
@@ -243,7 +244,7 @@ def run(p, report, tier):
             if f is None or id(f.node) in seen or is_abstract(f):
                 continue
             seen.add(id(f.node))
-            da = DefiniteAssignment(f.node).run()
+            da = DefiniteAssignment(_it(f.node)).run()
             reports = dict(da.reports)
             exc = None
             if f.qual == "AnnotatorEnsembleClassifier.predict_proba" and "P" in reports:
